@@ -256,6 +256,10 @@ fn triple_case<P: G>(cfg: Cfg, seeded: bool, tier: Tier) -> Box<dyn Case> {
                 proof_bytes_or_obj(&st, &format!("generator:{}", name), &mut res, false);
             }
         }
+        // (Statements are altered through `RangeStatement::init` only, as the property says: a statement whose public fields
+        // were edited into a combination no constructor produces -- a promise vector of another length, a compressed
+        // commitment list of another length, parameters with fewer parties than commitments -- is outside its scope. On the
+        // pinned tree such a statement can make `verify_batch` panic in the multiscalar backend; see DESIGN.md 10.4, wave 7.)
         // ---- transcript initial state
         for ctx2 in contexts().into_iter().skip(1) {
             res.transitions += 1;
